@@ -19,4 +19,13 @@ theorem blob_magic : Pearl.BLOB_MAGIC_BYTE = Gen.BLOB_MAGIC_BYTE ∧ Pearl.BLOB_
 theorem blob_header_layout :
     Gen.layout_blob_Header = [("magic_byte", "u64"), ("version", "u32"), ("flags", "u64")] := rfl
 
+/-- the validation chain of a record read back from a blob is the straight line the model has (`headerValidate`:
+    magic byte, then header checksum; `entryLoad` / `loadData`: header validation, then CRC-32C of the whole data
+    against `data_checksum`, `recordDataChecksum` otherwise) - no shortcut, no partial checksum -/
+theorem validation_chain :
+    Gen.RECORD_VALIDATE = ["header.validate()?", "check_data_checksum()?"] ∧
+    Gen.RECORD_CHECK_DATA = ["header.data_checksum_audit(data)"] ∧
+    Gen.HEADER_VALIDATE = ["check_magic_byte()?", "check_header_checksum()?"] ∧
+    Gen.DATA_AUDIT = ["CRC32C.checksum(data)", "==", "data_checksum", "RecordDataChecksum"] := by decide
+
 end Pearl.Tie.C05
